@@ -141,6 +141,14 @@ CLAIMED = {
                   "shared learners left pristine); real experiments with shared stateful learners, batched and unbatched environments and components failing in params / k-th read / predict / learn, every triple also run alone in a fresh worker process.",
             note="As C01: the evaluation is abstract; deepcopy/pickle fidelity, class-level caches and other per-process state are observed by the real runs only. 'Reported in the log' is not checked. Trusted: Coq kernel, translator, extraction+driver, harness.",
             technique="Coq proof (freshness invariant over arbitrary task orders and groupings) over translator-checked source shape + extracted-model correspondence + alone-vs-together oracle on real runs", design="§5 C03"),
+ "C02": dict(text="Coq theorems (C02/Props.v): torn_record_is_harmless - for ANY record texts (newline-free, non-empty, parsing to their record, not parsing when truncated), ANY complete records on disk and ANY cut through the line being written the "
+                  "tolerant decoder returns exactly the complete records (plus the cut one iff only its newline is missing); resume_exactly_the_missing_work - after ANY sequence of killed runs (each restoring the complete records and appending ANY prefix "
+                  "of ANY order of the missing records) a run that finishes repeats no recorded task and leaves every task exactly once; interrupted_logs_stay_valid. Real experiments are run to a result file (plain and .gz; some evaluations fail in the "
+                  "first run; learner-major and shuffled tuple lists), the file is cut at record boundaries, their neighbours and random bytes (thorough: every byte), resumed - some cut and resumed twice, some with maxtasksperchunk - and compared with "
+                  "the uninterrupted run: tables, re-evaluated triples, duplicate records, readability of the cut and of the final file; the re-evaluated set is bracketed by the extracted model's todo; a real SIGKILL layer kills a child interpreter mid-run.",
+            note="Trusted: Coq kernel, extraction+driver, harness. The byte theorem's hypotheses about JSON texts and the treatment of a torn gzip member as a torn line are assumptions checked on every generated log, not proved; os.replace atomicity is trusted. "
+                 "A kill is represented by its effect (a byte prefix) except in the SIGKILL layer. Record payloads are functions of the task (C01). Open finding: an evaluation with zero rows is repeated on resume.",
+            technique="Coq proof (line framing under truncation, resume as list induction over arbitrary kill histories) + byte-cut resume oracle on real runs + extracted-model correspondence + real SIGKILL runs", design="§5 C02"),
 }
 NA_REASON = "check not built yet in this revision (planned, see DESIGN.md §8); no claim is made"
 def main():
